@@ -141,7 +141,7 @@ def run_model(lines):
     rest = list(lines)
     stuck = 0
     while rest:
-        budget = 60 + 0.005 * len(rest)
+        budget = 20 + 0.002 * len(rest)
         try:
             p = subprocess.run('ulimit -s unlimited 2>/dev/null; exec ' + exe, shell=True, input='\n'.join(rest) + '\n',
                                stdout=subprocess.PIPE, stderr=subprocess.PIPE, text=True, timeout=budget, env=env)
@@ -170,7 +170,7 @@ def run_model(lines):
         out[cid] = ('viol unreadable (the value of the implementation\'s result could not be computed within %d s: '
                     'not a readable array)' % int(budget))
         rest = rest[k + 1:]
-        if stuck >= 6:
+        if stuck >= 3:
             for l in rest:
                 out[LINE_ID.match(l).group(1)] = 'bad (modelrun stopped answering repeatedly)'
             break
